@@ -897,6 +897,31 @@ func genJunk(r *rng, o *out, do func(string) string) {
 	try([]byte("8=FIX.4.2\x019=5\x01"), "only89")
 	try([]byte("8=FIX.4.2\x019=5\x0135=D\x01"), "only8935")
 	try(append(append([]byte{}, noCk...), []byte("453=2\x01448=a\x01")...), "nochecksum-group")
+	{ // the witness of C11_faithful_full_false on the real parser: well-formed for a scanner that compares tag TEXTS, but `010` reads as CheckSum
+		lw := wireEncode("F", []kv{{"35", []byte("D")}, {"010", []byte("x")}})
+		for _, lm := range []string{"n", "a:FIX42"} {
+			emitDdefs(lm, lw, seen, do)
+			res := do("parse " + lm + " " + hx(lw))
+			o.kind("junk.leadzero-checksum." + strings.Fields(res)[0])
+		}
+		for _, tg := range []string{"09", "08", "0212"} { // and the other numeric aliases
+			aw := wireEncode("FIX.4.2", []kv{{"35", []byte("D")}, {tg, []byte("5")}, {"55", []byte("X")}})
+			res := do("parse n " + hx(aw))
+			o.kind("junk.leadzero-" + tg + "." + strings.Fields(res)[0])
+		}
+	}
+	{ // the witness of C11_checksum_member_swallowed on the real parser: a dictionary whose group 453 lists CheckSum
+		tmode := "a:@TEN"
+		tw := wireEncode("FIX.4.2", []kv{{"35", []byte("D")}, {"453", []byte("1")}, {"448", []byte("a")}})
+		emitDdefs(tmode, tw, seen, do)
+		res := do("parse " + tmode + " " + hx(tw))
+		o.kind("junk.checksum-member." + strings.Fields(res)[0])
+		if strings.HasPrefix(res, "ok") { // CheckSum swallowed by the group: not in the trailer
+			do("has t 10")
+			do("has b 453")
+			do("bytes")
+		}
+	}
 	// XMLDataLen beyond the message
 	for _, n := range []string{"9999", "9223372036854775807", "3", "1", "0", "-4", "", "x"} {
 		try(wireEncode("FIX.4.2", []kv{{"35", []byte("D")}, {"212", []byte(n)}, {"213", []byte("<a/>")}, {"55", []byte("X")}}), "xmllen")
